@@ -627,6 +627,9 @@ func (t *tr) callExpr(c *ast.CallExpr) string {
 	case "(time.Time).Unix":
 		sel := c.Fun.(*ast.SelectorExpr)
 		return fmt.Sprintf("(tsec %s)", t.expr(sel.X))
+	case "(time.Time).Year":
+		sel := c.Fun.(*ast.SelectorExpr)
+		return fmt.Sprintf("(time_Year %s)", t.expr(sel.X))
 	case "(time.Time).Format":
 		sel := c.Fun.(*ast.SelectorExpr)
 		return fmt.Sprintf("(time_Format %s %s)", t.layoutOf(c.Args[0]), t.expr(sel.X))
